@@ -6,12 +6,16 @@
 package vsym
 
 import (
+	"bufio"
 	"crypto/md5"
 	"encoding/json"
 	"fmt"
 	"hash/fnv"
 	"os"
 	"reflect"
+	"runtime"
+	"strings"
+	"testing"
 )
 
 type replay struct {
@@ -162,4 +166,152 @@ func Run(name string, f func()) (failed bool) {
 	}
 	fmt.Printf("VSYM-RESULT %s ok\n", name)
 	return false
+}
+
+const (
+	KOther = iota
+	KBool
+	KInt
+	KUint
+	KString
+	KBytes
+)
+
+func KindOf(v interface{}) int {
+	if v == nil {
+		return KOther
+	}
+	rv := reflect.ValueOf(v)
+	switch rv.Kind() {
+	case reflect.Bool:
+		return KBool
+	case reflect.Int, reflect.Int8, reflect.Int16, reflect.Int32, reflect.Int64:
+		return KInt
+	case reflect.Uint, reflect.Uint8, reflect.Uint16, reflect.Uint32, reflect.Uint64, reflect.Uintptr:
+		return KUint
+	case reflect.String:
+		return KString
+	case reflect.Slice:
+		if rv.Type().Elem().Kind() == reflect.Uint8 {
+			return KBytes
+		}
+	}
+	return KOther
+}
+func IntOf(v interface{}) int64    { return reflect.ValueOf(v).Int() }
+func UintOf(v interface{}) uint64  { return reflect.ValueOf(v).Uint() }
+func StrOf(v interface{}) string   { return reflect.ValueOf(v).String() }
+func BytesOf(v interface{}) []byte { return reflect.ValueOf(v).Bytes() }
+func BoolOf(v interface{}) bool    { return reflect.ValueOf(v).Bool() }
+func IsNilPtr(v interface{}) bool {
+	if v == nil {
+		return true
+	}
+	rv := reflect.ValueOf(v)
+	switch rv.Kind() {
+	case reflect.Ptr, reflect.Map, reflect.Slice, reflect.Func, reflect.Interface, reflect.Chan:
+		return rv.IsNil()
+	}
+	return false
+}
+
+func And(a, b bool) bool     { return a && b }
+func Or(a, b bool) bool      { return a || b }
+func Implies(a, b bool) bool { return !a || b }
+func Ite(c bool, a, b int) int {
+	if c {
+		return a
+	}
+	return b
+}
+func IteByte(c bool, a, b byte) byte {
+	if c {
+		return a
+	}
+	return b
+}
+func StrEq(a, b string) bool { return a == b }
+
+func loadFile(p string) {
+	loaded = true
+	rp = replay{Model: map[string]uint64{}, Params: map[string]int64{}}
+	b, err := os.ReadFile(p)
+	if err != nil {
+		panic(err)
+	}
+	if err := json.Unmarshal(b, &rp); err != nil {
+		panic(err)
+	}
+	if rp.Model == nil {
+		rp.Model = map[string]uint64{}
+	}
+	if rp.Params == nil {
+		rp.Params = map[string]int64{}
+	}
+}
+
+func panicSite() string {
+	pcs := make([]uintptr, 64)
+	n := runtime.Callers(3, pcs)
+	frames := runtime.CallersFrames(pcs[:n])
+	for {
+		f, more := frames.Next()
+		fn := f.Function
+		if strings.Contains(fn, "gofakes3") && !strings.Contains(fn, "/internal/vsym") && !strings.Contains(fn, "/internal/vharn") && !strings.Contains(fn, ".VH_") && !strings.Contains(fn, ".vh") {
+			return fn
+		}
+		if !more {
+			break
+		}
+	}
+	return "?"
+}
+
+// RunReplays runs the replay files listed in $VSYM_REPLAY_LIST (lines
+// "<harness> <file>") and prints one VSYM-RESULT line per entry.
+func RunReplays(t *testing.T, hs map[string]func()) {
+	lp := os.Getenv("VSYM_REPLAY_LIST")
+	if lp == "" {
+		t.Skip("no VSYM_REPLAY_LIST")
+	}
+	f, err := os.Open(lp)
+	if err != nil {
+		t.Fatal(err)
+	}
+	defer f.Close()
+	sc := bufio.NewScanner(f)
+	idx := 0
+	for sc.Scan() {
+		fs := strings.Fields(sc.Text())
+		if len(fs) != 2 {
+			continue
+		}
+		h := hs[fs[0]]
+		if h == nil {
+			fmt.Printf("VSYM-RESULT %d %s aborted: unknown harness\n", idx, fs[0])
+			idx++
+			continue
+		}
+		func(i int) {
+			Reset()
+			loadFile(fs[1])
+			defer func() {
+				if r := recover(); r != nil {
+					if a, ok := r.(Abort); ok {
+						fmt.Printf("VSYM-RESULT %d %s aborted: %s\n", i, fs[0], a.Why)
+						return
+					}
+					msg := strings.ReplaceAll(fmt.Sprint(r), "\n", " ")
+					fmt.Printf("VSYM-RESULT %d %s panic: %s @site %s\n", i, fs[0], msg, panicSite())
+				}
+			}()
+			h()
+			if len(Failures) > 0 {
+				fmt.Printf("VSYM-RESULT %d %s failed: %v\n", i, fs[0], Failures)
+			} else {
+				fmt.Printf("VSYM-RESULT %d %s ok\n", i, fs[0])
+			}
+		}(idx)
+		idx++
+	}
 }
